@@ -9,9 +9,9 @@ import random
 import xml.etree.ElementTree as ET
 from typing import Any, Dict, Iterable, List
 
-from harness.core import Case, Finding, OUTSIDE, VERIF
+from harness.core import Case, Finding, OUTSIDE, VERIF, call, canon
 from harness.props._doc import (DocCheck, Gen, r_doc, all_paths, node_at, random_mutation, mark_nonconformant,
-                                apply_mutation)
+                                apply_mutation, serialise, dump_scan, dump_extra)
 from harness.props.c01 import _kids, _points, _text_equiv, read_line, read_doc, has_content
 
 CORPUS = os.path.join(VERIF, 'harness', 'corpus', 'C08')
@@ -82,6 +82,40 @@ def region_lines(r):
     return out + r['lines']
 
 
+def table_variants(src) -> List[Dict[str, Any]]:
+    """other documents whose tables carry the SAME ids as those of `src` but have another shape (used to parse several
+    documents one after the other in one process): (1) the tables in the opposite order, each cut down to its first
+    complete row, no text regions; (2) every table with one more, complete and WIDER row at the end.  Both keep the
+    quantifier: cells in row-major order, some row complete."""
+    def rows_of(t):
+        rows: Dict[int, List[Any]] = {}
+        for c in t['cells']:
+            rows.setdefault(c['row'], []).append(c)
+        return rows
+
+    def cut(t):
+        rows = rows_of(t)
+        if not rows:
+            return t
+        ncols = max(len(v) for v in rows.values())
+        for v in rows.values():
+            if [c['col'] for c in v] == list(range(ncols)):
+                return dict(t, cells=list(v))
+        return t
+
+    def widen(t, k):
+        rows = rows_of(t)
+        if not rows:
+            return t
+        ncols = max(len(v) for v in rows.values())
+        proto = t['cells'][0]
+        new_row = [dict(proto, id=f'xc{k}-{j}', row=max(rows) + 1, col=j, row_span=None, col_span=None, header=None,
+                        orientation=None, corner=None, custom=None, lines=[]) for j in range(ncols + 1)]
+        return dict(t, cells=list(t['cells']) + new_row)
+    return [dict(src, tables=[cut(t) for t in reversed(src['tables'])], regions=[], ro={'kind': 'absent'}),
+            dict(src, tables=[widen(t, k) for k, t in enumerate(src['tables'])])]
+
+
 class C08(DocCheck):
     pid = 'C08'
     model_pid = 'C08'
@@ -106,7 +140,11 @@ class C08(DocCheck):
         'correspondence: tables whose cells are NOT listed in row-major order (pairs (row, col) strictly ascending in file '
         'order) or that have no complete row, and mutated tables that are no conformant TableRegion any more, are outside the '
         'quantifier — the model (which mirrors first-occurrence grouping) is still run on them but a difference is recorded '
-        'in the evidence only; two rejections agree whatever the exception class; extra scan.metadata keys are ignored')
+        'in the evidence only; two rejections agree whatever the exception class; extra scan.metadata keys are ignored. '
+        'Histories (wave 4): every document is parsed a second and a third time in the same process, its tables are read '
+        'again after shape / values / [r][c] / stats / the JSON round trip were taken once, and documents whose tables '
+        'have the same ids but another shape (one row only; one more and wider row) are parsed in between — each look is '
+        'judged against its own source text (the model is pure)')
     assumptions = [
         'the C01 model of xmltodict and of the text-line parser (shared; validated on the same documents)',
         'the hull routine is a function of its input point list (row coordinates; C09)',
@@ -235,6 +273,42 @@ class C08(DocCheck):
     def nontrivial(self, case: Case) -> bool:
         return any(len(t['cells']) >= 2 for t in case.input['src']['tables'])
 
+    # ---------------------------------------------------------------- implementation: the document, then a history
+    def impl(self, case: Case) -> Any:
+        out = super().impl(case)
+        if case.kind != 'doc' or 'outside' in case.tags or 'err' in out['real']:
+            return out
+        # several documents parsed one after the other in this process (the model is pure: every parse has the answer
+        # of a first parse): the same text again; its tables read a second time AFTER shape / values / every [r][c] /
+        # stats / the JSON round trip were taken once; documents whose tables have the same ids but another shape;
+        # the same text a third time
+        from pagexml.parser import parse_pagexml_file
+        fname, xml = case.input.get('fname', 'doc.xml'), out['xml']
+
+        def both(scan):
+            d = {'scan': dump_scan(scan), 'extra': dump_extra(scan)}
+            if scan.table_regions:
+                # the other input form of the rebuilder: the dictionary itself (dump_extra hands over its string encoding)
+                def trip():
+                    from pagexml.parser import parse_pagexml_from_json
+                    back = parse_pagexml_from_json(scan.json)
+                    return [{'shape': list(t.shape), 'values': [list(v) for v in t.values]} for t in back.table_regions]
+                o = call(trip)
+                d['extra']['json_trip_tables_dict'] = o['ok'] if 'ok' in o else o
+            return d
+
+        def hist():
+            scan = parse_pagexml_file(fname, pagexml_data=xml)
+            h = {'second': both(scan), 'others': []}
+            for v in table_variants(case.input['src']):
+                vx = serialise(r_doc(v))
+                h['others'].append({'xml': vx, 'real': call(lambda: both(parse_pagexml_file(fname, pagexml_data=vx)))})
+            h['reread'] = both(scan)
+            h['third'] = both(parse_pagexml_file(fname, pagexml_data=xml))
+            return h
+        out['hist'] = canon(call(hist))
+        return out
+
     # ---------------------------------------------------------------- oracle
     def oracle(self, case: Case, out: Any) -> List[Finding]:
         if case.kind != 'doc' or 'outside' in case.tags:
@@ -253,7 +327,34 @@ class C08(DocCheck):
             key = 'single-cell' if any(len(t['cells']) == 1 for t in src_tables) else 'raises'
             bad(f'{key}:{real["err"]}', f'table document rejected with {real["err"]}')
             return fs
-        scan, extra = real['ok']['scan'], real['ok']['extra']
+        self.judge(out['xml'], real['ok']['scan'], real['ok']['extra'], bad, '', '')
+        h = out.get('hist')
+        if h is None or fs:
+            return fs
+        if 'err' in h:
+            bad('raises-later:' + h['err'], f'parsing / reading the document again in the same process raised {h["err"]}')
+            return fs
+        h = h['ok']
+        for k, tag, what in (('second', ':second-parse', 'the same text parsed a second time: '),
+                             ('reread', ':read-again', 'the tables read again after they were indexed, exported to JSON '
+                                                       'and other documents were parsed: '),
+                             ('third', ':third-parse', 'the same text parsed again after other documents: ')):
+            self.judge(out['xml'], h[k]['scan'], h[k]['extra'], bad, tag, what)
+        for o in h['others']:
+            if 'err' in o['real']:
+                bad('raises-later:' + o['real']['err'], f'a table document parsed after another one is rejected with '
+                                                        f'{o["real"]["err"]}')
+            else:
+                self.judge(o['xml'], o['real']['ok']['scan'], o['real']['ok']['extra'], bad, ':after-another-document',
+                           'a document with the same table ids parsed afterwards: ')
+        return fs
+
+    def judge(self, xml: str, scan, extra, bad0, tag: str, pre: str):
+        """the statement on one parsed scan (dump) against its own source text, read independently"""
+        def bad(key, what):
+            bad0(key + tag, pre + what)
+        fs = None
+        out = {'xml': xml}
         exp_tables = read_tables(out['xml'])
         if len(exp_tables) != len(scan['tables']):
             bad('table-count', f'{len(exp_tables)} TableRegion elements, {len(scan["tables"])} parsed')
@@ -323,6 +424,12 @@ class C08(DocCheck):
                 bad('json-trip', f'{where}: JSON round trip failed: {trip}')
             elif trip[k]['shape'] != g['shape'] or trip[k]['values'] != g['values']:
                 bad('json-trip', f'{where}: after the JSON round trip shape/values are {trip[k]}')
+            if 'json_trip_tables_dict' in extra:
+                trip = extra['json_trip_tables_dict']
+                if not isinstance(trip, list) or k >= len(trip):
+                    bad('json-trip:dict-form', f'{where}: JSON round trip through the dictionary failed: {trip}')
+                elif trip[k]['shape'] != g['shape'] or trip[k]['values'] != g['values']:
+                    bad('json-trip:dict-form', f'{where}: after the JSON round trip (dictionary form) shape/values are {trip[k]}')
         # scan statistics: tables at page level next to text regions
         doc_exp = read_doc(out['xml'])
         reg_lines = [l for r in doc_exp['regions'] if has_content(r) for l in region_lines(r)]
